@@ -200,9 +200,9 @@ var c02Wanted = []string{"short-body", "inconsistent-list", "unknown-param", "ac
 func Verif_C02_open_structured() {
 	P, C := 1, 2
 	if verifTier() >= 1 {
-		P, C = 2, 2
+		P, C = 1, 3
 	}
-	verifNote("OPEN decode+validate: body length symbolic 0..4077, at most P optional parameters x C capabilities each (1x2 quick / 2x2 thorough); local id / local AS / remote AS symbolic 32-bit; don't-care: AS_TRANS in the 2-octet field although the configured remote AS is a 16-bit number other than 23456")
+	verifNote("OPEN decode+validate: body length symbolic 0..4077, at most P optional parameters x C capabilities each (1x2 quick / 1x3 thorough; two parameters are covered by the small-body mode from 18 bytes on); local id / local AS / remote AS symbolic 32-bit; don't-care: AS_TRANS in the 2-octet field although the configured remote AS is a 16-bit number other than 23456")
 	for _, w := range c02Wanted {
 		verifWant("st-" + w)
 	}
